@@ -22,6 +22,7 @@ fn main() {
         "val" => { valmode::run(&a); return }
         "c19" => { valmode::run_c19(&a); return }
         "c20" => { valmode::run_c20(&a); return }
+        "tables" => { valmode::dump_tables(&a.out); return }
         "c06nest" => { let d: usize = args[2].parse().unwrap(); let k: usize = args[3].parse().unwrap(); modes::c06_nest(d, k, &args[4]); return }
         "c01" => modes::c01(&a),
         "c14" => modes::c14(&a),
